@@ -696,7 +696,7 @@ class Weaver:
         self.macros[name] = Macro(sf, it)
 
     def do_struct(self, d):
-        rel, name = d.parts[0], d.parts[1]
+        rel, name = d.parts[0], d.parts[1].split()[0]
         sf = self.repo.file(rel)
         it = find_named(sf, d.kind, name)
         toks = sf.toks
@@ -773,7 +773,7 @@ class Weaver:
             tail = [t for t in h2[pe + 1:] if t.text != ';']
             txt = 'pub ' + render(h2[:pi]) + '(' + ', '.join(fs) + ')' + (' ' + render(tail) if tail else '') + ';'
         log.append({'rule': 'R2', 'what': 'fields/visibility widened to pub; derives dropped', 'where': where})
-        extra = d.head.split(name, 1)[1].strip() if name in d.head else ''
+        extra = d.parts[1][len(name):].strip()
         if extra.startswith('derive'):
             self.emit(f'#[{extra}]')
         self.emit(txt)
